@@ -13,6 +13,7 @@ FILES = {
 N2100 = 4102444800 * 10**9        # 2100-01-01T00:00:00Z in ns
 K2100 = 4102444800 * 10**6        # ... in us
 K9999 = 253402300799999999
+KMIN = -62135596800 * 10**6       # 0001-01-01T00:00:00Z in us
 
 # input-binade chunks for the float VCs (DESIGN 4/C16): [lo, hi) in ns
 _BOUNDS = [0, 1000] + [1000 * 2**e for e in range(4, 53, 4)]
@@ -42,7 +43,9 @@ CONTRACTS = {
     },
     "convert_timestamp_to_unix_nano": {
         "params": {},
-        "requires": {"wf": f"0 <= pv_k(iso_timestamp) <= {K2100} and iso_timestamp == pv_str_of(pv_k(iso_timestamp))"},
+        # the PV -> ns direction is exact integer arithmetic: it is specified (and proved) for every canonical PV string from year 1 on,
+        # not only for the 1970..2100 range in which the float-based ns -> PV direction is proved
+        "requires": {"wf": f"{KMIN} <= pv_k(iso_timestamp) <= {K2100} and iso_timestamp == pv_str_of(pv_k(iso_timestamp))"},
         "ensures": {"instant": "result == 1000 * pv_k(iso_timestamp)"},
         "witness": {"k": "pv_k(iso_timestamp)"},
         "pure": True,
@@ -142,6 +145,14 @@ def _ks(rng, n):
         yield rng.randrange(0, K2100 + 1)
 
 
+def _ks_signed(rng, n):
+    yield from _ks(rng, n)
+    for k in (-1, -500000, -999999, -10**6, -10**6 - 1, -86400 * 10**6 + 1, -2208988800 * 10**6 + 500000, KMIN, KMIN + 1):
+        yield k
+    for _ in range(n // 4):
+        yield -rng.randrange(1, 2208988800 * 10**6)
+
+
 def _ns(rng, n):
     """nanosecond instants: microsecond-aligned ones, plus unaligned ones around every rounding / carry boundary"""
     for k in _ks(rng, n):
@@ -158,7 +169,7 @@ def _ns(rng, n):
 
 GEN = {
     "unix_nano_to_pv_string": lambda nat, rng, n: ({"unix_nano": v} for v in _ns(rng, n)),
-    "convert_timestamp_to_unix_nano": lambda nat, rng, n: ({"iso_timestamp": nat.ns["pv_str_of"](k)} for k in _ks(rng, n)),
+    "convert_timestamp_to_unix_nano": lambda nat, rng, n: ({"iso_timestamp": nat.ns["pv_str_of"](k)} for k in _ks_signed(rng, n)),
 }
 FROM_MODEL = {
     "unix_nano_to_pv_string": lambda nat, m: {"unix_nano": int(m["wit.unix_nano"])} if "wit.unix_nano" in m else None,
